@@ -234,11 +234,15 @@ def rand_syn(rng, terms, nnt=None, max_alts=3, max_len=3, p_empty=0.2, p_error=0
     nts[0] = "S0"
     syn = []
     aid = 0
+    productive = rng.random() < 0.85
     for h in nts:
         for a in range(rng.randint(1, max_alts)):
             r = rng.random()
             if r < p_empty and a > 0:
                 body = [(1, "empty")]
+            elif a == 0 and productive:
+                # a base case of terminals only keeps every non-terminal productive
+                body = [rng.choice(terms) for _ in range(rng.randint(1, 2))]
             else:
                 n = rng.randint(1, max_len)
                 body = []
@@ -261,6 +265,26 @@ def rand_syn(rng, terms, nnt=None, max_alts=3, max_len=3, p_empty=0.2, p_error=0
                 act = rng.choice(choices)
                 aid += 1
             syn.append((h, body, act, aid if act else 0))
+    if productive:
+        # make every non-terminal reachable from the start symbol (most of the time)
+        for i in range(1, len(nts)):
+            earlier = set(nts[:i])
+            if any(hd in earlier and (0, nts[i]) in bd for hd, bd, _, _ in syn):
+                continue
+            cands = [k for k, (hd, bd, _, _) in enumerate(syn) if hd in earlier and bd[0][1] not in ("empty",)]
+            if not cands:
+                continue
+            k = rng.choice(cands)
+            hd, bd, act, aid2 = syn[k]
+            bd = list(bd)
+            if act in (0, 1, 5) and len(bd) <= max_len:
+                bd.insert(rng.randint(1 if bd[0][1] == "error" else 0, len(bd)), (0, nts[i]))
+            else:
+                pos = rng.randrange(1 if (act == 4 or bd[0][1] == "error") and len(bd) > 1 else 0, len(bd))
+                if act == 4 and pos == 0:
+                    continue
+                bd[pos] = (0, nts[i])
+            syn[k] = (hd, bd, act, aid2)
     return syn
 
 
